@@ -244,6 +244,13 @@ class SafetyMonitor(Monitor):
                     neg = neg | {sid}
                 cbs = cbs + ((sid, res if isinstance(res, (int, type(None), bool)) else repr(res), err),)
 
+        # ---- a snapshot handed to a node (transfer or own dump file) is always a complete one (C09)
+        if 'C09' in C:
+            for o in obs:
+                if o[0] == 'load-failed' and o[1] != 'Killed':
+                    raise core.Violation('C09 %s was handed a snapshot it could not load (%s while loading the full dump) (%r)' % (
+                        nid, o[1], ev), sig='snapshot-load-failed')
+
         # ---- per-node applied list == replay of the common sequence (C01)
         if 'C01' in C and (post.app != pre.app or post.applied != pre.applied or restarted):
             self.check_list(post, applied_at, ev)
